@@ -335,6 +335,18 @@ pub fn plan_input(mode: u8, dir: &std::path::Path, file_name: &str, content: &[u
     }
 }
 
+/// An environment whose table already holds `filler` entries (variables with labels from 1 000 000
+/// upwards, far from anything a check uses): 2.2 million [quick] / 17 million [thorough] — beyond
+/// 2^21 resp. 2^24. What an operation computes must not depend on how full the table is.
+pub fn huge_env(filler: usize) -> rsbdd::bdd::BDDEnv<usize> {
+    let env: rsbdd::bdd::BDDEnv<usize> = rsbdd::bdd::BDDEnv::new();
+    crate::util::budget(u64::MAX, 1000);
+    for i in 0..filler {
+        let _ = env.var(1_000_000 + i);
+    }
+    env
+}
+
 /// Ways of SPELLING the path of an output file inside `dir` (all name the file the operating
 /// system resolves them to; the harness reads the result back through the same spelling):
 /// plain; with a `.` component; through `sub/..`; through `lnk/..` where lnk is a symbolic link to
